@@ -292,9 +292,18 @@ def float_text_check(rep, tier, seed):
             if back != v:
                 bad = (v, text, f"reads back as {back!r}")
                 break
-        elif not (back == v or abs(back - v) <= 1e-15 * abs(v)):
-            bad = (v, text, f"reads back as {back!r}: differs in the first 16 significant digits")
-            break
+        elif back != v:
+            # "to 16 significant digits": the printed decimal is within half a unit of the 16th significant digit of the value
+            # (exact decimal arithmetic; a correctly rounded 16-digit rendering satisfies this with equality at worst)
+            from decimal import Decimal, InvalidOperation
+
+            try:
+                pd, dv = Decimal(text), Decimal(v)
+            except InvalidOperation:
+                pd = dv = None
+            if pd is None or abs(pd - dv) > Decimal(5) * Decimal(10) ** (dv.adjusted() - 16) or abs(back - v) > 1e-15 * abs(v):
+                bad = (v, text, f"reads back as {back!r}: differs from the computed value within the first 16 significant digits")
+                break
     ob = Ob("types.IC10Operand.to_string{float}#literal_reads_back", HELD if not bad else VIOLATED, kind="bounded", backend="native", target="types.IC10Operand.to_string",
             bound=f"{n} doubles (uniform, log-uniform 1e-12..1e15, near-integers, short decimals)", time_s=time.time() - t0)
     if bad:
